@@ -256,7 +256,11 @@ pub fn hostile_value(tag: Tag, len: usize, version: u32, key: &[u8], seq: u32, b
 
 pub fn run_workload(seed: u64, index: u64, dir: &str, tier_ops: usize) -> Result<Workload, String> {
     let mut rng = Rng::derive(seed, index, 0xc4a5);
-    let data_blocks = *rng.pick(&[48u64, 64, 96, 160]);
+    // every fourth workload runs on a device its live set nearly fills (12-20 blocks for up to 12 keys of 1-3
+    // blocks): flushes hit OutOfSpace now and then, reservations are rolled back, retirements are forced to make
+    // room - and every cut of THAT trace is a crash point too. A failed flush acknowledges nothing.
+    let tight = index % 4 == 3;
+    let data_blocks = if tight { *rng.pick(&[12u64, 16, 20]) } else { *rng.pick(&[48u64, 64, 96, 160]) };
     let mut cfg = Cfg::disk(16 + data_blocks);
     cfg.version = *rng.pick(&[3u32, 3, 3, 3, 2, 1]);
     cfg.ttl = rng.chance(1, 2);
@@ -272,8 +276,8 @@ pub fn run_workload(seed: u64, index: u64, dir: &str, tier_ops: usize) -> Result
     let store = storeutil::open(&cfg, Some(&path)).map_err(|e| format!("workload open: {e:?}"))?;
     let open_end = mon.len();
     let uring = store.verif_uses_uring();
-    let threads = 1 + rng.usize_below(3);
-    let nkeys = 3 + rng.usize_below(5);
+    let threads = if tight { 1 + rng.usize_below(2) } else { 1 + rng.usize_below(3) };
+    let nkeys = if tight { 4 + rng.usize_below(3) } else { 3 + rng.usize_below(5) };
     let hostile = rng.chance(1, 3);
     let flush_pm = *rng.pick(&[4u64, 8, 12, 20]);
     let acks = Mutex::new(Vec::new());
@@ -293,14 +297,19 @@ pub fn run_workload(seed: u64, index: u64, dir: &str, tier_ops: usize) -> Result
         }
     });
     // ending: explicit flush, clean drop, or "crash" with whatever the periodic flusher managed
-    let ending = rng.below(3);
+    let ending = if tight { 0 } else { rng.below(3) };
+    let mut drop_acknowledges = true;
     if ending == 0 {
         let inv = mon.len();
         let t = tick();
-        if store.flush().is_ok() {
+        let r = store.flush();
+        if r.is_ok() {
             acks.lock().push((inv, mon.len(), t));
+        } else if tight {
+            // the device is full: the drop's own final flush cannot place everything either (it only logs that)
+            drop_acknowledges = false;
         }
-        log.push(format!("[{inv}..{}] final flush()", mon.len()));
+        log.push(format!("[{inv}..{}] final flush() -> {:?}", mon.len(), r.as_ref().map_err(storeutil::err_name)));
     } else if ending == 1 {
         std::thread::sleep(std::time::Duration::from_millis(rng.range(0, 250)));
     }
@@ -310,7 +319,9 @@ pub fn run_workload(seed: u64, index: u64, dir: &str, tier_ops: usize) -> Result
     let ret = mon.len();
     log.push(format!("[{inv}..{ret}] clean drop"));
     let mut acks = acks.into_inner();
-    acks.push((inv, ret, t));
+    if drop_acknowledges {
+        acks.push((inv, ret, t));
+    }
     acks.sort();
     let events = mon.take_events();
     hub().unwatch(&mon);
@@ -789,6 +800,10 @@ pub fn run(args: &Args) -> Report {
             match r {
                 Ok(w) => {
                     report.count("traces_checked_against_the_journal_discipline", 1);
+                    if w.cfg.blocks <= 16 + 32 {
+                        report.count("workloads_on_nearly_full_devices", 1);
+                    }
+                    report.count("flush_calls_refused_out_of_space", w.log.iter().filter(|l| l.contains("flush() ->") && l.contains("OutOfSpace")).count() as u64);
                     if let Some(p) = &w.trace_problem {
                         report.violation("crash:journal-discipline", format!("workload {} on {}: {p}", w.index, w.cfg.label()), json!({"engine": "crash", "seed": w.seed, "workload": w.index, "config": w.cfg.label(), "client_log": w.log}));
                     }
